@@ -1,17 +1,12 @@
 import Lm.Generated.Bst
 import Lm.Struct.Bst
+import Lm.Inst.Bst
 import Driver.Util
 /-! Line-protocol driver for the ordered-set model (property C11). -/
 namespace Driver.Bst
 open Lm.Struct.Bst
 
-/-- the harness's user comparator: three-way comparison of `v / 4` -/
-def userCmp (a b : Val) : Int :=
-  (if a / 4 > b / 4 then 1 else 0) - (if a / 4 < b / 4 then 1 else 0)
-
-/-- the library's default comparator, as regenerated from the source (tie A) -/
-def defaultCmp (a b : Val) : Int :=
-  (Lm.Generated.Bst.ptrcmp (BitVec.ofNat 64 a) (BitVec.ofNat 64 b)).toInt
+open Lm.Inst.Bst (userCmp defaultCmp)
 
 def fmtVals (vs : List Val) : String := String.join (vs.map fun v => s!" {v}")
 
